@@ -21,3 +21,17 @@ func VerifSetConfig(epoch int64, nodeBits uint8, nodeAtLowest bool) (restore fun
 	_epoch, _nodeBits, _nodeAtLowest = epoch, nodeBits, nodeAtLowest
 	return func() { _epoch, _nodeBits, _nodeAtLowest = e, b, l }
 }
+
+// VerifMonoPresetStep puts a MonoNode's step counter at the given value (under the node's
+// own mutex), i.e. into the state that this many Generate calls inside the current
+// millisecond would also reach. It reports false when n is not a *MonoNode.
+func VerifMonoPresetStep(n Node, step int64) bool {
+	var m, ok = n.(*MonoNode)
+	if !ok {
+		return false
+	}
+	m.mu.Lock()
+	m.step = step
+	m.mu.Unlock()
+	return true
+}
